@@ -18,7 +18,7 @@ EXPLANATION = (
     "concat semantics."
 )
 # obligations added during the build phase (seeding rounds, twins, mutation analysis)
-ADDED_IN_BUILD = " Also: the segments are the groups of ChangeDetector.sparse_to_dense's labels, whose C05.e DENSE-FILL obligations are re-run here (a dropped last changepoint merges two segments). every-segment-judged: no returning path of _predict skips the loop over the segments. The reported interval has the exact form (first position, last position + 1) - a min / max / clip on a bound is a violation. Vectorised spellings are UNDECIDED except for two decided defects: intervals listed selection by selection (position-order) and statistics stored in an array of the data's dtype (statistic-dtype)."
+ADDED_IN_BUILD = " Also: the segments are the groups of ChangeDetector.sparse_to_dense's labels, whose C05.e DENSE-FILL obligations are re-run here (a dropped last changepoint merges two segments). every-segment-judged: no returning path of _predict skips the loop over the segments. The reported interval has the exact form (first position, last position + 1) - a min / max / clip on a bound is a violation. Vectorised spellings are UNDECIDED except for two decided defects: intervals listed selection by selection (position-order) and statistics stored in an array of the data's dtype (statistic-dtype). rejects-equal-bounds: a construction-time raise whose path facts are consistent with stat_lower == stat_upper is a violation."
 EXPLANATION = EXPLANATION + ADDED_IN_BUILD
 
 ASSUMPTIONS = [
